@@ -27,7 +27,7 @@ ASSUMPTIONS = [
 ]
 FLOORS = {
     "quick": {"roundtrips": 5000, "with-strings": 4000, "with-multiline": 200,
-              "with-hostile-quoting": 500},
+              "with-hostile-quoting": 500, "serialisations-into-a-chunk-list": 100},
     "thorough": {"roundtrips": 150000, "with-strings": 100000, "with-multiline": 5000,
                  "with-hostile-quoting": 10000},
 }
@@ -149,6 +149,13 @@ def check_case(label, data, info, res: Result):
         res.count("with-hostile-quoting")
     res.case(data, nontrivial=meta["strings"])
     res.monitor("roundtrip-contract", bool(viols))
+    if lab.SERIALISE["sink-differs"]:
+        for out, sunk, leaked in lab.SERIALISE["sink-differs"][:1]:
+            res.violation({"step": "output-depends-on-the-kind-of-writer"},
+                          {"input": data, "into_StringIO": out, "into_chunk_list": sunk,
+                           "leaked_to_stdout": leaked})
+        del lab.SERIALISE["sink-differs"][:]
+    res.counters["serialisations-into-a-chunk-list"] = lab.SERIALISE["n"] // 4
     for sig, detail in viols:
         wdata = data
         if res.is_new_sig(sig) and info.get("toks") and label in ("gen", "uses", "meta-base"):
